@@ -72,6 +72,7 @@ type FuncContract struct {
 	AllocBound map[int]string
 	Fresh      []string // results that are freshly allocated
 	Trusted    bool     // body is not verified (explicitly listed as assumption)
+	Sticky     bool     // successive results on the same arguments: once non-zero, stays the same
 	DeadEdges  int      // number of control-flow edges accepted as infeasible (defensive code)
 }
 
@@ -443,6 +444,9 @@ func parseSpecFile(path string, pkgPath string, raw bool) (*SpecFile, error) {
 			cur.Neutral = true
 		case "trusted":
 			cur.Trusted = true
+		case "sticky":
+			cur.Sticky = true
+			cur.Neutral = true
 		case "deadedges":
 			k, err := strconv.Atoi(strings.TrimSpace(rest))
 			if err != nil {
